@@ -25,6 +25,7 @@ pub mod c11;
 pub mod c12;
 pub mod c13;
 pub mod c14;
+pub mod display;
 
 pub fn dispatch(ctx: &mut Ctx) {
     match ctx.prop.as_str() {
@@ -50,6 +51,7 @@ pub fn dispatch(ctx: &mut Ctx) {
         "C17" => c17::check(ctx),
         "C06" => c06::check(ctx),
         "C18" => c18::check(ctx),
+        "DISPLAY" => display::check(ctx),
         other => {
             ctx.case("harness", "", "viol", serde_json::json!({"what": format!("unknown property {}", other)}));
         }
